@@ -13,7 +13,7 @@ import vlib, asmcommon as A
 from vlib import Check, run3
 
 TOKS = A.IMM + A.OPRS + ['OPR', 'DATA', 'FUNC', 'PROC', '-', '0', '1', '15', '16', '255', '4294967295', '4294967296', '2147483648', '-2147483648',
-                           '99999999999999999999999', 'x', 'lab', 'L1', 'main', '_x', 'a_b', '#', '\n', '@', '\xff', '\x00', 'BRB', 'LDAM']
+                           '99999999999999999999999', 'x', 'lab', 'L1', 'main', '_x', 'a_b', '#', '\n', '@', '\xff', '\x00', 'BRB', 'LDAM', '%', '%s', '%d', '%n', '%1$s', '{}', '\\', '"', "'"]
 
 
 def random_bytes(rng):
@@ -69,7 +69,7 @@ def odd_program(rng):
         elif r < 0.95:
             lines.append('DATA ' + rng.choice(['0', '-1', '-', 'x', '4294967296', '']))
         else:
-            lines.append(rng.choice(['BRB', 'SVC', '5', '-', '@', '# only a comment']))
+            lines.append(rng.choice(['BRB', 'SVC', '5', '-', '@', '# only a comment', 'BR %', 'LDAC 7 % 2', '%s', 'LDAM %d%n', 'x%', '100%']))
     sep = rng.choice(['\n', '\n', ' ', '\n\n'])
     return (sep.join(lines) + rng.choice(['\n', '', '#'])).encode('latin1')
 
@@ -144,7 +144,7 @@ def main():
     if hexasm is None:
         ck.broken.append('hexasm does not build: ' + log[-300:])
     else:
-        sample = [c for c in cases if c['tag'] in ('tiny', 'empty', 'odd', 'corpus', 'replay')][:120 if not ck.thorough() else 3000]
+        sample = [c for c in cases if c['tag'] in ('tiny', 'empty', 'odd', 'corpus', 'replay', 'mutation') or (c['tag'] == 'random' and len(c['src']) < 400)][:1500 if not ck.thorough() else 40000]
         for c in sample:
             sp = os.path.join(d, 'in.S')
             op = os.path.join(d, 'out.bin')
